@@ -26,6 +26,7 @@ PropertyOK == l > 0 =>
            /\ NoRepetition(Cur.yielded)
            /\ Cur.drained => ToSet(Cur.yielded) = ToSet(Cur.unshuffled) /\ Len(Cur.yielded) = Len(Cur.unshuffled)
       [] Cur.kind = "json" -> Cur.before = Cur.after
+      [] Cur.kind = "panic" -> FALSE                                 \* the generator must not panic on valid settings
       [] Cur.kind = "verdict" ->
            /\ Cur.safe <=> ~RefUnsafe(Cur.logs)
            /\ Cur.commits = RefCommits(Cur.logs)
